@@ -90,6 +90,36 @@ def cli_sample(v, nprog, rnd):
             v.violation("cli:" + errs[0][0], {"why": errs[0][1], "name": name, "source": text[:4000]})
 
 
+def cli_sample_x(v, nprog, rnd):
+    """xcmp -S listing and xcmp -o binary from separate runs of the real executable."""
+    from lib import xgen, xref
+    cli = common.build_cli()
+    xcmp = os.path.join(cli, "xcmp")
+    d = common.scratch("c17clix")
+    texts = [(os.path.basename(f), open(f, encoding="latin-1").read()) for f in sorted(glob.glob(os.path.join(common.REPO, "tests", "x", "*.x")))]
+    for i in range(nprog):
+        prog, console, files = xgen.random_program(random.Random(rnd.randrange(1 << 62)))
+        texts.append(("xgen%d" % i, xref.render_program(prog)))
+    for name, text in texts:
+        src = os.path.join(d, "p.x")
+        open(src, "w", encoding="latin-1").write(text)
+        binf = os.path.join(d, "p.bin")
+        if os.path.exists(binf):
+            os.unlink(binf)
+        p1 = subprocess.run([xcmp, src, "-S"], cwd=d, stdout=subprocess.PIPE, stderr=subprocess.PIPE, timeout=120)
+        p2 = subprocess.run([xcmp, src, "-o", binf], cwd=d, stdout=subprocess.PIPE, stderr=subprocess.PIPE, timeout=120)
+        if p2.returncode != 0 or not os.path.exists(binf):
+            v.count("cli_x_rejected")
+            continue
+        errs, stats = judge(p1.stdout.decode("latin-1"), open(binf, "rb").read())
+        v.count("cli_x_listings_checked")
+        v.cov["evaluations"] += 1
+        v.count("listing_lines_instr", stats["instr"])
+        v.count("listing_lines_data", stats["data"])
+        if errs:
+            v.violation("cli-x:" + errs[0][0], {"why": errs[0][1], "name": name, "source": text[:4000]})
+
+
 def x_part(v, tier):
     try:
         from checks import c01
@@ -130,6 +160,7 @@ def run(tier, replay=None):
         for code, rep in o["viol"]:
             v.violation(code, rep)
     cli_sample(v, 40 if tier == "quick" else 600, rnd)
+    cli_sample_x(v, 40 if tier == "quick" else 600, rnd)
     x_part(v, tier)
     v.cov["rule"] = ("one evaluation = one accepted program whose listing was checked line by line against the image; "
                      "distinct by listing text (per worker); every program has at least one instruction or DATA line")
